@@ -172,7 +172,7 @@ def expected_add(value, key, opts, recorded, numeric_applies):
     d, reuse, encl_int = opts
     if reuse and recorded is not None:
         return enc(value, recorded)
-    is_int = isinstance(value, int) and not isinstance(value, bool) or (isinstance(value, str) and value.isascii() and value.isdigit())
+    is_int = (isinstance(value, int) and not isinstance(value, bool)) or (isinstance(value, str) and value.isascii() and value.isdigit())
     if numeric_applies and not encl_int and is_int:
         return value
     return enc(value, d)
@@ -212,6 +212,15 @@ def check_add(value, acc):
                     b = out.blocks[0]
                     got = b.fields[1].value if kind == "field" else b.value
                     exp = expected_add(value, key, opts, recorded, numeric_applies=(kind == "field" and key in NUMERIC))
+                    if isinstance(value, str) and value.isdigit() and not value.isascii() and kind == "field" and key in NUMERIC and not opts[2] and not (opts[1] and recorded is not None):
+                        # non-ASCII digit strings: "digit string" is not defined for them by the property
+                        acc.count("non_ascii_digits_unconstrained")
+                        continue
+                    if isinstance(value, int) and value < 0 and not isinstance(exp, str):
+                        # a negative int is not a BibTeX number; whether it counts as an "integer value" is not
+                        # stated by the property: only the no-exception clause is decided for it
+                        acc.count("negative_int_unconstrained")
+                        continue
                     acc.step(("add", repr(value), key, meta_mode, kind), ("opts", opts), canon(got))
                     if str(got) != str(exp) or (isinstance(exp, str) != isinstance(got, str)):
                         acc.violation(
